@@ -48,13 +48,40 @@ def make_cases(chk):
                 a, b = rng_.choice(shared)
                 return ([list(a)], [b])
 
+        if i % 7 == 3:
+            # mostly one function: whole subtrees (depth >= 2) collapse, merges create new mergeable decisions on the way up
+            pool = [pool[0]] * 7 + [pool[-1]]
+            sh = rng.choice([gen.full_shape(3), ("D", (gen.full_shape(2), "T")), ("D", ("T", gen.full_shape(2))),
+                             ("D", (gen.full_shape(2), gen.full_shape(2))), ("D", (("D", (gen.full_shape(2), "T")), "T"))])
+
         def tg(rng_, m_, n_, pool=pool):
             return rng_.choice(pool)
-        scr = rng.random() < 0.6
+        scr = rng.random() < 0.6 or i % 7 == 3      # cascades always also on arenas whose index order is not top-down
         if scr:
-            ts, _ = gen.tree_steps_scrambled("t", sh, n, m, rng, term_gen=tg, dec_gen=dec_gen, layout_f=0.3)
+            ts, _ = gen.tree_steps_scrambled("t", sh, n, m, rng, term_gen=tg, dec_gen=dec_gen, layout_f=0.3,
+                                             p_dummy=0.95 if i % 7 == 3 else 0.5)
         else:
             ts, _ = gen.tree_steps("t", sh, n, m, rng, term_gen=tg, dec_gen=dec_gen, order=rng.choice(["dfs", "bfs"]))
+        if i % 29 == 1:
+            # built by hand: a freed slot is reused so that the lower decision C (index 1) sits below the higher-indexed P (index 2);
+            # C collapses first, which makes P collapse - a sweep that is not bottom-up in the *tree* misses P
+            f_ = (gen.mat(rng, m, n), gen.vec(rng, m))
+            g_ = (gen.mat(rng, m, n), gen.vec(rng, m + 0)[:m])
+            dec = lambda: aff_json([gen.nonzero_vec(rng, n)], [gen.coef(rng)], n)
+            A = lambda t: aff_json(t[0], t[1], n)
+            ts = [{"op": "from_aff", "name": "t", "k": 2, "aff": dec()},
+                  {"op": "add_child", "tree": "t", "parent": 0, "label": 0, "aff": A(g_)},       # 1: dummy
+                  {"op": "add_child", "tree": "t", "parent": 0, "label": 1, "aff": dec()},       # 2: P
+                  {"op": "remove_child", "tree": "t", "parent": 0, "label": 0},                  # frees 1
+                  {"op": "add_child", "tree": "t", "parent": 2, "label": rng.choice([0, 1]), "aff": dec()}]   # 1: C below P
+            lc = ts[-1]["label"]
+            ts += [{"op": "add_child", "tree": "t", "parent": 1, "label": 0, "aff": A(f_)},
+                   {"op": "add_child", "tree": "t", "parent": 1, "label": 1, "aff": A(f_)},
+                   {"op": "add_child", "tree": "t", "parent": 2, "label": 1 - lc, "aff": A(f_)},
+                   {"op": "add_child", "tree": "t", "parent": 0, "label": 0, "aff": A(g_)}]
+            sh, scr = "hand-built reuse cascade", True
+        if i % 4 == 2:
+            ts = ts + [{"op": "elim", "tree": "t"}]      # equal siblings that carry different cached feasibility states
         steps = ts + [{"op": "export", "tree": "t"}, {"op": "reduce", "tree": "t"}, {"op": "export", "tree": "t"},
                       {"op": "reduce", "tree": "t"}, {"op": "export", "tree": "t"}]
         cases.append({"id": "r%d" % i, "steps": steps, "nt": len(ts),
